@@ -129,6 +129,27 @@ def clearGroup (props : List PropDef) (pfx : List Nat) (g : Option Nat) (keep : 
         | none => acc
       else acc) m
 
+/-- the message reached from `m` along the proto path `loc` (an absent message reads as empty) -/
+def msgAt : List Nat → Fields → Fields
+  | [], m => m
+  | k :: rest, m => msgAt rest (PVal.asMsg (aget k m))
+
+/-- `buildValue(create = true)` since 25c97b7: the final field of `p` is a member of a real proto
+oneof and `walkMessage.WhichOneof(oneof)` names a **different** member — creating the field is then
+an error (before, `Message.Set` silently dropped the other member). The members of the proto oneof
+are the properties of the same property set with the same `group` whose final field lives in the
+same message (`clearGroup` uses the same reading). Never true for an empty path. -/
+def groupBusy (props : List PropDef) (p : PropDef) (m : Fields) : Bool :=
+  match p.group, p.path.getLast? with
+  | some gi, some k =>
+    let wm := msgAt p.path.dropLast m
+    props.any fun q =>
+      q.group == some gi && q.path.dropLast == p.path.dropLast &&
+        (match q.path.getLast? with
+         | some k' => k' != k && (aget k' wm).isSome
+         | none => false)
+  | _, _ => false
+
 /-- `Message.Set(fd, v)` at the end of the walk -/
 def setLeaf (pres : Pres) (k : Nat) (v : PVal) (m : Fields) : Fields :=
   if (pres == .imp && v.isZero) || v.isEmptyColl then aerase k m else aset k v m
